@@ -295,7 +295,10 @@ pub struct IcmpActor {
 }
 
 fn echo_body(rng: &mut Rng) -> Vec<u8> {
-    let n = match rng.below(8) {
+    let kinds = if rng.chance(1, 12) { 9 } else { 8 };
+    let n = match rng.below(kinds) {
+        // more than an unfragmented packet of 1500 holds (the capture buffer takes frames of 4096)
+        8 => *rng.pick(&[1473u64, 1474, 1500, 2000, 2048, 3000, 4000, 4034]),
         0 => 0,
         1 => 1,
         2 => rng.range(2, 7),
